@@ -624,3 +624,47 @@ def parser_factor(O):
 def kani_operator_kernels(O):
     from . import kani_obs
     kani_obs.expr_kernels(O, "C08")
+
+
+@obligation("C08/parser-does-not-look-at-values", profiles=("dev",),
+            desc="block parser over `( a OP b ) c` for OP in / % + and over `( ite ( a , b , c / d ) ) e`: whether the text is accepted "
+                 "never depends on the VALUE a literal converts to (no parse-time evaluation, e.g. of a zero divisor) - an operand "
+                 "in an unselected ite branch may divide by zero")
+def parser_ignores_values(O):
+    from . import C09
+    m = O.mir
+    lazy = [Scenario("A V\ndeclare V = 0;\n0 (ite(1, 7, 1 / 0))\n0 (ite(0, 5 % 0, 11))\n0 (ite(1, 3, 4 / (0)))\n0 (ite(0, 1 % 0x0, 9))\n", [("in", "A", 1, 0)],
+                     expect={"row_expected": [["7"], ["11"], ["3"], ["9"]]}, note="an unselected ite branch may divide by a literal zero")]
+
+    def judge(obs, sc):
+        from . import batteries as B_
+        return B_.literal_judge(obs, sc)
+    templates = [("LParen", "DecInt", op, "DecInt", "RParen", "DecInt", "Eol") for op in ("Divide", "Reminder", "Plus")]
+    templates.append(("LParen", "Ident", "LParen", "DecInt", "Comma", "DecInt", "Comma", "DecInt", "Divide", "DecInt", "RParen", "RParen", "DecInt", "Eol"))
+    n = 0
+    for fixed in templates:
+        m_, eng, ts, paths = C09.explore_block(O, 0, None, None, 2, fixed=fixed,
+                                               keep=(r"<BinOpTree as Into>::into", r"<Expr as From>::from", r"binoptree", r"FuncTable::get"),
+                                               keep_outcomes=lambda oc: oc in ("return", "cut", "unsupported", "panic"))
+        for p in paths:
+            if p.outcome != "return":
+                continue
+            eng.focus(p)
+            r0, _ = O.solve(list(p.pc), want_model=False)
+            if r0 != "sat":
+                continue
+            for e in p.calls(r"from_str_radix$"):
+                okc = eng.tag_of(e.ret, None) == bv64(0)
+                v = eng.scalar(eng.field(eng.downcast(e.ret, "Ok"), 0, "i64"))
+                base, _ = O.solve(list(p.pc) + [okc], want_model=False)
+                if base != "sat":
+                    continue
+                n += 1
+                for val in (0, 1, -1, 7):
+                    r, _ = O.solve(list(p.pc) + [okc, v == bv64(val)], want_model=False)
+                    if r == "unsat":
+                        O.fail_path(p, "the parser's path depends on the value of a literal (value %d excluded) in `%s`" % (val, " ".join(fixed)),
+                                    {"what": "parse depends on a literal's value", "template": " ".join(fixed)[:60]}, lazy, judge, extra=[okc])
+                        break
+    if n == 0:
+        O.inconclusive("vacuous: no literal conversion on any path")
